@@ -15,8 +15,8 @@ from harness.common import e_str, d_str, timed, Timeout
 
 THEOREMS = [
     'C10_parse_fmt_fuel', 'C10_render_injective', 'C10_terminates', 'C10_no_index_raises_or_unique',
-    'C10_bijection', 'C10_consistent', 'C10_nothing_else', 'C10_iso_triples_partial',
-    'C10_index_format_nonvacuous', 'C10_no_index_collision_raises',
+    'C10_bijection', 'C10_consistent', 'C10_nothing_else', 'C10_iso',
+    'C10_index_format_nonvacuous', 'C10_no_index_collision_raises', 'C10_iso_nonvacuous',
 ]
 
 FORMATS = ['{prefix}{j}', '{prefix}{i}', 'a{i}', '{i}', 'x{j}{i}', 'v{j}', '{prefix}_{i}{{}}', '{prefix}']
@@ -190,7 +190,7 @@ def run(chk):
     chk.assumptions += [
         'str.format is modelled for literal text, {{ }} escapes and the plain fields {prefix} {i} {j}; other formats are rejected by parse_fmt (outside the model)',
         'str.isalpha / str.lower are parameters of the model; the extracted instance is a Latin-1 table (validated below) plus CPython-supplied entries for the other characters of each input',
-        'C10_iso is proved for the triple list and the top (partial: epidata by correspondence/oracle only); literal ":instance" roles with variable-like atomic targets are outside the renaming clause',
+        'C10_iso hypotheses: old variables and new names contain no "~" and no leading quote, every node has a variable, the concept role is written "/" and no other branch produces an instance triple, no constant is spelled like a new name',
     ]
     common.use_repo()
     import penman
